@@ -92,6 +92,11 @@ def directed():
         out.append({"adj": {"threads": 1, "outbuf_high_watermark": mark, "send_bytes": 1, "channel_request_lookahead": 0}, "sndbuf": 256,
                     "conns": [{"requests": [{"n": 700, "k": "write", "w": mark + 200}, {"n": 900, "k": "fw"}], "sndbuf": 256,
                                "reader": {"mode": "stall", "after": 100, "resume": 5.0}}]})
+    # look-ahead: input still being read (64 bytes at a time) while the worker ends a response above the mark and,
+    # with more requests queued, waits at the end of service()
+    out.append({"adj": {"threads": 1, "outbuf_high_watermark": 256, "send_bytes": 1, "channel_request_lookahead": 2, "recv_bytes": 64}, "sndbuf": 512,
+                "conns": [{"requests": [{"n": 1500, "k": "cl"}, {"n": 10, "k": "cl"}, {"n": 20, "k": "cl"}], "sndbuf": 512,
+                           "reader": {"mode": "always"}}]})
     # a send() that fails right after the send that brought the backlog back under the mark
     for mark, sndbuf, k in ((64, 256, 3), (64, 256, 4), (4096, 2048, 3), (4096, 2048, 4)):
         out.append({"adj": {"threads": 1, "outbuf_high_watermark": mark, "send_bytes": 1}, "sndbuf": sndbuf,
@@ -109,7 +114,7 @@ def plan(tier, seed):
         specs.append({"mode": "random", "seed": seed * 1019 + i, "n": per})
     ds = directed()
     if tier == "quick":
-        ds = [ds[0], ds[1], ds[6], ds[11], ds[12], ds[13], ds[14], ds[16]]
+        ds = [ds[0], ds[1], ds[6], ds[11], ds[12], ds[13], ds[14], ds[15], ds[17]]
     parts = 4
     for scn in ds:
         for p in range(parts):
